@@ -68,6 +68,10 @@ fn main() {
         "c09" => c09::run(&args),
         "c14" => c14::run(&args),
         "c15" => c15::run(&args),
+        "c15-probe" => {
+            c15::probe(&args);
+            return;
+        }
         "c16" => c16::run(&args),
         "c17" => c17::run(&args),
         "c18" => c18::run(&args),
